@@ -17,7 +17,7 @@ theorem locked_rejects_bind (st : State) (hl : st.locked = true) (k : Key) (v : 
 /-- Once locked, registering a configurable raises and changes nothing. -/
 theorem locked_rejects_register (st : State) (hl : st.locked = true) (r : State.RegReq) :
     step st (.register r) = (st, .err .runtimeError) := by
-  simp [step, State.register, hl]
+  simp [step, State.register, State.regCheck, hl]
 
 /-- Finalizing twice is an error (and changes nothing). -/
 theorem finalize_twice (st : State) (hl : st.locked = true) :
@@ -55,9 +55,7 @@ theorem unlock_body_runs_unlocked (st : State) (body : List Op) (raises : Bool) 
 
 theorem register_locked (st st' : State) (r : State.RegReq) (h : st.register r = .ok st') :
     st'.locked = st.locked := by
-  unfold State.register at h
-  repeat (first | (split at h) | cases h)
-  rfl
+  rw [(State.register_ok h).2]
 
 theorem bind_locked (st st' : State) (k : Key) (v : Val) (h : st.bind k v = .ok st') :
     st'.locked = st.locked := by
